@@ -8,7 +8,7 @@ Sub-checks
            (frozen dataclasses, raising __setattr__), a class whose __setattr__ derives a second attribute from an
            argument, BaseException subclasses), glom-detected failures, and failing T / Path steps whose cause has a class
            of its own (T[::0] -> ValueError, T ** 400 -> OverflowError, Decimal % 0 -> InvalidOperation, '%(k)s' % {} ->
-           KeyError, 1['b'] -> TypeError, T / 0 -> ZeroDivisionError, 'zz' on a list -> ValueError): the PathAccessError
+           KeyError, 1['b'] -> TypeError, T / 0 -> ZeroDivisionError): the PathAccessError
            that reports the step is also an instance of that class, default / skip_exc match either
            x wrapper x default in {absent, object, None, T} x skip_exc in {absent, the class, a base,
            an unrelated class, a tuple, ()} x glom_debug in {False, True}
@@ -373,8 +373,9 @@ TSTEP = {
     'TStepFormatKeyError': (lambda: {'s': '%(k)s'}, lambda: T['s'] % {}, lambda t: t['s'] % {}, 1),
     'TStepItemTypeError': (lambda: {'a': 1}, lambda: T['a']['b'], lambda t: t['a']['b'], 1),
     'TStepDivZeroDivisionError': (lambda: 7, lambda: T / 0, lambda t: t / 0, 0),
-    # a string path on a list: the segment is the index, converted with int() ("invalid literal for int()")
-    'PathIndexValueError': (lambda: [1, 2], lambda: 'zz', lambda t: t[int('zz')], 0),
+    # (NOT a site: a string path on a list whose segment is no number.  The ValueError of the int() conversion is raised
+    # inside the registered 'get' handler, not by an operation of the spec on the target: the failure is one that glom
+    # detects itself, a plain PathAccessError, as on the pinned commit)
 }
 
 
